@@ -142,6 +142,10 @@ func init() {
 							f.Source = []string{"", "fs-dir", "fs-gone"}[k]
 						}
 					}
+					if !before && c.Rng.Chance(35) {
+						// not a failing writer function but a real source: readable, not rewindable
+						f.Source = "norewind"
+					}
 					where = fmt.Sprintf("file%d", idx-len(spc.Parts))
 				}
 				m, ops, err := spc.Build()
